@@ -26,9 +26,10 @@ LISP = r"""
   "a lazy sequence over xs that tells counter c about every element it realizes"
   [xs c]
   (lazy-seq
-    (when-let [s (seq xs)]
-      (.hit c)
-      (cons (first s) (src (rest s) c)))))
+    (if-let [s (seq xs)]
+      (do (.hit c)
+          (cons (first s) (src (rest s) c)))
+      (.end c))))
 """
 
 
@@ -37,10 +38,15 @@ class Budget(Exception):
 
 
 class Counter:
-    __slots__ = ("n", "budget", "over")
+    __slots__ = ("n", "budget", "over", "ends")
 
     def __init__(self, budget):
-        self.n, self.budget, self.over = 0, budget, False
+        self.n, self.budget, self.over, self.ends = 0, budget, False, 0
+
+    def end(self):
+        """the consumer asked for an element beyond the last one"""
+        self.ends += 1
+        return None
 
     def hit(self):
         self.n += 1
@@ -218,8 +224,8 @@ class RT:
         return self.src(self.core["cycle"](v) if cyclic else v, c), c
 
     def lazy_levels(self, stages, inp, cyclic, budget):
-        """the lazy-seq arities again, with a counting sequence in front of EVERY stage: -> pulls per level
-        (level j feeds stage j + 1)"""
+        """the lazy-seq arities again, with a counting sequence in front of EVERY stage: -> demand per level (level j
+        feeds stage j + 1): elements pulled, plus one if the stage also asked for an element beyond the last one"""
         v = self.vec.vector([self.dec(e) for e in inp])
         cs = [Counter(budget)] + [Counter(10 ** 9) for _ in stages[1:]]
         r = self.src(self.core["cycle"](v) if cyclic else v, cs[0])
@@ -231,7 +237,7 @@ class RT:
             self.enc_result(r)
         except Exception:  # noqa
             pass
-        return [c.n for c in cs]
+        return [c.n + min(c.ends, 1) for c in cs]
 
     def make_eduction(self, xf, parts, coll, variadic, real):
         """(eduction xf coll) / (eduction xf1 xf2 .. coll).  core's `eduction` spends milliseconds taking its argument
